@@ -1521,8 +1521,11 @@ def _check_feed(run, repo, world):
         d = path_conds(cfg, n, tree, what="R-FEED")
         for conj in d:
             for a_ in conj:
-                if a_[0] == "p" and ("_outstanding" in a_[1] or
-                                     "seq" in a_[1]):
+                if a_[0] == "p":
+                    # anything but the mode byte deciding whether the report
+                    # reaches the watcher (the sequence number, the report
+                    # type: the framing-error status travels in an INFO
+                    # report)
                     bad = a_[1]
         got = pred.union(got, frozenset(
             frozenset(a_ for a_ in conj if a_[0] == "le") for conj in d))
